@@ -145,12 +145,18 @@ func (pq *KeyGroupPriorityQueue) Pop() ([]byte, bool) {
 
 func (pq *KeyGroupPriorityQueue) Push(data []byte) {
 	pq.loadFromDB()
-	pq.cache.Push(data)
 
-	// If pushing the item exceeded the cache capacity, evict items until we're back under the limit
-	for pq.cache.IsFull() && !pq.cache.IsEmpty() {
-		pq.cache.PopLast()
-		pq.allDataInCache = false // evicted item is now only in the DB
+	// While some items are only in the DB the cache holds the earliest items of
+	// the key group. An item after the last cached one may sort after items
+	// that are only in the DB, so it must stay out of the cache as well.
+	if last, ok := pq.cache.Last(); pq.allDataInCache || (ok && bytes.Compare(data, last) <= 0) {
+		pq.cache.Push(data)
+
+		// If pushing the item exceeded the cache capacity, evict items until we're back under the limit
+		for pq.cache.IsFull() && !pq.cache.IsEmpty() {
+			pq.cache.PopLast()
+			pq.allDataInCache = false // evicted item is now only in the DB
+		}
 	}
 
 	pq.db.Put(data, nil) // write-through cache to db
